@@ -1,7 +1,8 @@
 """C07 -- trailing-slash redirects lead to the same resource in one hop."""
 from pyvc.run import native
 
-TARGETS = ['clastic.application.Application.dispatch', 'clastic.route.normalize_path#verify']
+TARGETS = ['clastic.application.Application.dispatch', 'clastic.route.normalize_path#verify',
+           'clastic.route.BoundRoute.__init__']
 CANARIES = [
     {'name': 'redirect-in-rewrite-mode', 'file': 'clastic/application.py',
      'old': "                    if route.slash_mode == S_REDIRECT:", 'new': "                    if route.slash_mode != S_STRICT:"},
@@ -13,7 +14,7 @@ CANARIES = [
     {'name': 'normalize-no-trailing-slash', 'file': 'clastic/route.py',
      'old': "    if is_branch:\n        ret.append('')", 'new': "    if is_branch and len(ret) > 2:\n        ret.append('')"},
 ]
-OWN = [r'dispatch/ensures\[4\]', r'normalize_path']
+OWN = [r'dispatch/ensures\[4\]', r'normalize_path', r'BoundRoute\.__init__.*/ensures\[1\]', r'^C07\.']
 QUICK_CANARIES = 2
 
 
@@ -24,6 +25,23 @@ def build(pc, E, canary=None):
     R.verify_normalize(pc, E)
     if canary is not None:
         return
+    # T (by evaluation on the real module): the quoting applied to the query string is the identity on
+    # every legal query character and on percent-escapes -- the statement says the query is kept
+    import z3
+    from pyvc.run import Item
+    try:
+        out = native('query_safe_case.py', {}, repo_root=E.repo.root)
+    except Exception as e:
+        out = {'harness_error': repr(e)}
+    if out.get('harness_error'):
+        pc.errors.append('query_safe_case: %s' % out['harness_error'][-300:])
+    else:
+        it = Item('C07.T/query-string-preserved', 'T', [], z3.BoolVal(not out.get('fails')),
+                  note='url_quote(q, safe=_QUERY_SAFE) == q for every legal query character and percent-escape; '
+                       'end-to-end redirects keep the query byte for byte' + (': ' + out.get('why', '') if out.get('fails') else ''))
+        it.by = 'evaluation'
+        it.concretise = lambda pc_, it_: {'script': 'query_safe_case.py', 'case': {}}
+        pc.add_item(it)
     pc.assumptions += ['A-wz-url: url_quote/unquoting of PATH_INFO round-trips; redirect() sets Location to iri_to_uri(location)',
                        'what a browser does with the 30x is not decided']
 
